@@ -685,6 +685,16 @@ print("EXPECTED: %(expected)s")
 sys.exit(1 if hit else 0)
 '''
 
+REPLAY_MEMDISK = REPLAY_HEAD + r'''
+md = res["cases"][0]["memdisk"]
+print("operation list:", json.dumps(req["cases"][0]["ops"]))
+print("memory run: entries", md["entries_mem"], "error", md["error_mem"], "; disk run: entries", md["entries_disk"], "error", md["error_disk"], "; reads compared", md["n_compared"])
+if md["diff"]:
+    print("OBSERVED: read #%%d (%%s): %%s differs: memory run %%s, disk run %%s" %% (md["diff"]["read_number"], md["diff"]["op"], md["diff"]["what"], json.dumps(md["diff"]["mem"])[:200], json.dumps(md["diff"]["disk"])[:200]))
+print("EXPECTED: the same scenario with iterations kept in memory and with iterations written to disk brings back bitwise the same fields / arrays / mesh index at every restore and read")
+sys.exit(1 if md["diff"] else 0)
+'''
+
 REPLAY_PROBE = REPLAY_HEAD + r'''
 pr = res["probes"][%(probe)r]
 print("probe", %(probe)r, "->", json.dumps(pr, indent=1)[:1500])
@@ -858,6 +868,16 @@ def run(ctx):
             for k, c in enumerate(cases[n_before:]):
                 if k % 2 == 0 or ("SetMesh" in [o[0] for o in c["ops"]] and "SaveLoad" in [o[0] for o in c["ops"]]):
                     c["mixed"] = True
+    if quick:
+        # wall time: the shortest scenario of every other configuration (all scenarios in the thorough tier)
+        names = [a for (a, _, _) in CONFIGS]
+        for a in names[::2]:
+            mine = [c for c in cases if c["sim"] == a and not c.get("twin") and not c.get("allresults")]
+            if mine:
+                min(mine, key=lambda c: len(c["ops"]))["memdisk"] = True
+    else:
+        for c in cases:
+            c["memdisk"] = True        # the same scenario once all in memory, once all on disk, on two simulations
     probes = ["mesh_roundtrip", "phasefield_history", "inelastic_state", "algo_change", "init_shared", "save_then_folder_change", "phasefield_save"]
     req = {"root": os.path.join(ctx.build, "scratch"), "cases": cases, "probes": probes}
     rc, out, err = ctx.impl_python(script, input=json.dumps(req), timeout=1500)
@@ -1039,6 +1059,22 @@ def run(ctx):
             ncmp += 1
         if dif:
             mism.append((c, dif))
+    md_n = md_reads = md_err = 0
+    for c, r in zip(cases, impl["cases"]):
+        md = r.get("memdisk")
+        if not md:
+            continue
+        md_n += 1
+        md_reads += md["n_compared"]
+        md_err += 1 if (md["error_mem"] or md["error_disk"]) else 0
+        if md["diff"]:
+            cls = c["sim"].split("_")[0]
+            key = "mem-disk-differs:%s:%s" % (cls, md["diff"]["what"])
+            if key not in [v["key"] for v in ctx.violations]:
+                ctx.violation(key, "%s: the same scenario run with iterations in memory and with iterations on disk disagrees at read #%d (%s) on %s" % (c["sim"], md["diff"]["read_number"], md["diff"]["op"], md["diff"]["what"]),
+                              {"case": c, "memdisk": md, "replay_py": REPLAY_MEMDISK % dict(verif=common.VERIF, req={"cases": [c], "probes": []})}, found_input=True)
+    ctx.obligation("corr:memory-vs-disk", not any(v["key"].startswith("mem-disk-differs") for v in ctx.violations), "%d scenarios doubled, %d reads compared" % (md_n, md_reads))
+    ctx.cov["memory_vs_disk"] = {"scenarios_run_twice": md_n, "restores_and_reads_compared_bitwise": md_reads, "scenarios_where_a_variant_raised(known findings)": md_err}
     ctx.cov["op_distribution"] = opdist
     ctx.cov["sim_distribution"] = simdist
     ctx.cov["algorithm_coverage"] = algodist
